@@ -1562,3 +1562,35 @@ Q(name="e2_endpoint_first_initial", props=["C07", "C14", "C09"], func=r"endpoint
   functions=["Endpoint::handle_first_packet"], pre=lambda c: ule(c.inp("*_1.%d#discr" % c.field("endpoint.rs", "Endpoint", "server_config"), I64), bv(1)), post=hfp2_post,
   bounds="every datagram length, configuration and verdict of key derivation / header decoding / token validation (all opaque): without a server configuration the only reaction is a stateless reset sized by this datagram; an Initial in a datagram shorter than 1200 bytes causes no response and no state; the token is checked against this datagram's source address; NewConnection is returned iff a route for the Initial's DCID was installed for a fresh buffer slot; one error-string construction path (a pointer transmute inside the panic message) is outside",
   replay=("endpoint_first_initial_native", lambda m: [dict(len_=l) for l in (1199, 1200, 300)]))
+
+
+# ------------------------------------------------------------------ C08: the tail of Connection::handle_packet (slice): a connection that becomes drained stops its close timer
+def hpt_post(c, p):
+    st = p.p.state
+    calls = st.calls
+    ev = c.ex.enums["EndpointEventInner"].index("Drained")
+    drained_at = None
+    for i, x in enumerate(calls):
+        if re.search(r"VecDeque.*::push_back", x[0]) and x[1][0][0] == "ref" and str(x[1][0][1]).endswith(".%d" % c.field("connection/mod.rs", "Connection", "endpoint_events")):
+            a = x[1][1]
+            if a[0] == "agg":
+                snap = _Snap(st, x[3]) if x[3] is not None else st
+                d = c.ex.read_key(snap, a[1] + "#discr", I64).t
+                if d == bv(ev):
+                    drained_at = i
+    if drained_at is None:
+        return "true"
+    later = calls[drained_at + 1:]
+    stops = [i for i, x in enumerate(later) if re.search(r"TimerTable::stop$", x[0]) and "'Timer', %d)" % _timer_idx(c, "Close") in str(x[1][1][1])]
+    rearm = [i for i, x in enumerate(later) if re.search(r"set_close_timer$", x[0]) or (re.search(r"TimerTable::set$", x[0]) and "'Timer', %d)" % _timer_idx(c, "Close") in str(x[1][1][1]))]
+    # once Drained has been reported to the endpoint, the close timer is stopped and nothing arms it again
+    ok = bool(stops) and not [r for r in rearm if r > stops[0]]
+    return "true" if ok else "false"
+
+
+Q(name="e2_handle_packet_tail", props=["C08"], func=r"connection/mod\.rs:245:1[^>]*>::handle_packet$",
+  src="connection/mod.rs", within=r"^    fn handle_packet\(", start_line=r"if !was_closed && self\.state\.is_closed\(\)",
+  inline=[r"State::is_closed$", r"State::is_drained$"], allowed_panics=r".",
+  functions=["Connection::handle_packet (slice: from `if !was_closed && self.state.is_closed()` to the end)"], pre=lambda c: "true", post=hpt_post,
+  bounds="the closing lines of handle_packet, executed from an ARBITRARY state (every local and all memory unconstrained - an over-approximation of whatever the packet processing before it did): on every path that queues EndpointEvent::Drained, the Close timer is stopped afterwards and not armed again; the slice is located through the source text of the function",
+  replay=("conn_handle_packet_tail_native", lambda m: [dict(x=0)]))
